@@ -11,7 +11,10 @@ HEAD=$(git -C /repo rev-parse HEAD)
 if [ ! -d $ROOT/repo ]; then git -C /repo worktree prune; git -C /repo worktree add -q --detach $ROOT/repo $HEAD || exit 2; fi
 ( cd $ROOT/repo && git checkout -q -- . && git clean -fdq && git checkout -q --detach $HEAD ) || exit 2
 ( cd $ROOT/repo && git apply $PATCH ) || { echo "PATCH DOES NOT APPLY"; exit 2; }
-rsync -a --delete --exclude target --exclude .git --exclude replays --exclude evidence --exclude seeded /verif/ $ROOT/verif/
+# committed state of /verif only (work in progress must not leak into a seeded run)
+mkdir -p $ROOT/verif.new && rm -rf $ROOT/verif.new/* && git -C /verif archive HEAD | tar -x -C $ROOT/verif.new
+rm -rf $ROOT/verif.new/seeded $ROOT/verif.new/evidence
+mkdir -p $ROOT/verif && rsync -a --delete --exclude target --exclude replays --exclude evidence $ROOT/verif.new/ $ROOT/verif/
 sed -i "s#/repo/#$ROOT/repo/#g" $ROOT/verif/sim/engines/Cargo.toml
 echo "$ROOT/repo" > $ROOT/verif/.repo_root
 ( cd $ROOT/verif && VERIF_SEED=${VERIF_SEED:-1} ./check $PROP $TIER ); rc=$?
